@@ -9,6 +9,7 @@ EXPLANATION = (
     "emissions in key order and nothing re-orders them; (R4) the emissions digest sorts by channel before hashing and "
     "covers channel id, length and data; (R5) the set of reducers declared commutative equals the documented set. "
     "Commutativity/associativity of the reducers on byte strings — the algebraic heart of the property — is NOT decided."
+    ' Round 2 (R6): the arms of reducers declared commutative fold every operand — no early exit from an operand loop.'
 )
 ASSUMPTIONS = ["BTreeMap iteration is key order", "reducer algebra is out of static reach"]
 FLOOR = 17
